@@ -1172,6 +1172,22 @@ def c15(work, tier, seed):
     # the limit an analysis started through the engine runs under: the requested one (0 = explicitly none), else
     # the engine's default
     engine_api(work, vh, rep, "C15", seed, tier)
+    # the limits the searches behind the UCI driver derive from the clocks of the go commands (hook iter.limits):
+    # the hard limit never exceeds what the go command left the side to move
+    def clocks(i):
+        trace = work.path("clocks%d.ndjson" % i)
+        p = vlib.run_harness(work, vh, ["ucisched", "-mode", "clocks" if i == 0 else "stub", "-seed", seed * 100 + 70 + i, "-n", 40 if quick else 600, "-delay", [0, 20][i % 2], "-maxus", 200,
+                                        "-out", trace, "-evlog", work.path("clocks%d.evlog" % i)], check=False, timeout=3000)
+        if p.returncode != 0:
+            raise Inconclusive("ucisched (clocks) failed: %s" % (p.stdout + p.stderr)[-2000:])
+        r = vlib.validate_trace(work, "TraceUci", ["C15"], trace, timeout=3000, heap="4g")
+        r.stats = {"limits-derived-from-go-clocks": sum(line.count('"name":"iter.limits"') for line in open(trace))}
+        return r
+    cres = vlib.run_many(clocks, range(2 if quick else 8))
+    for r in cres:
+        rep.counters(r.stats)
+    vlib.absorb_trace_results(rep, cres)
+    require(rep, ["limits-derived-from-go-clocks"], "C15")
     rep.assumptions = ["the published depths come from the hooks (exact even if the capacity-1 PV channel drops an intermediate depth for the consumer); scores/PVs are compared for the depths the draining consumer received",
                        "the oracle for each depth is the same search run directly at that depth on a fresh fork without a table (itself validated against Search.tla by C03); PVs are compared only with the table off",
                        "'reported before the halt was requested' is read off the controller's event sequence: iter.published events recorded before the harness's halt.call mark",
